@@ -94,6 +94,9 @@ func (this *RGBLuminanceSource) Crop(left, top, width, height int) (LuminanceSou
 	if this.left+left+width > this.dataWidth || this.top+top+height > this.dataHeight {
 		return nil, errors.New("IllegalArgumentException: Crop rectangle does not fit within image data")
 	}
+	if left < 0 || top < 0 {
+		return nil, errors.New("IllegalArgumentException: Crop rectangle origin must not be negative")
+	}
 	return &RGBLuminanceSource{
 		LuminanceSourceBase: LuminanceSourceBase{width, height},
 		luminances:          this.luminances,
